@@ -24,6 +24,7 @@ func main() {
 	cpuprof := flag.String("cpuprofile", "", "write cpu profile")
 	shard := flag.String("shard", "", "worker mode: i/n")
 	partial := flag.String("partial", "", "worker mode: write the partial report to this file")
+	racePass := flag.Int("race-pass", 0, "free-running pass of C14's harness bodies for the race detector (binary built with -race): iterations per combination")
 	flag.Parse()
 	debug.SetGCPercent(400)
 	if *cpuprof != "" {
@@ -33,6 +34,17 @@ func main() {
 	}
 	if v := os.Getenv("VERIF_DIR"); v != "" {
 		props.VerifDir = v
+	}
+	if *racePass > 0 {
+		runs, problems := props.RacePass(*racePass)
+		fmt.Printf("race-pass: runs=%d problems=%d\n", runs, len(problems))
+		for _, p := range problems {
+			fmt.Println("race-pass problem:", p)
+		}
+		if len(problems) > 0 {
+			os.Exit(3)
+		}
+		return // the race detector itself exits 66 if it reported a race
 	}
 	if *list {
 		for _, id := range props.IDs() {
